@@ -215,12 +215,14 @@ def run_impl(case, d):
     dec["s_name"] = dec["name"].apply(lambda i: sym[i])
     outs = {}
     problems = []
+    # ONE filter object per filter, used for every call of this case (with a table, then without): a filter must not remember anything of a call
+    objs = [mk_filter(f, st) for f in filters]
     for mode, frame, tab in (("encoded+table", df, st), ("decoded, no table", dec, None)):
         before = frame.copy(deep=True)
         res = []
-        for f in filters:
+        for f, fobj in zip(filters, objs):
             try:
-                o = mk_filter(f, st)(frame, tab) if tab is not None else mk_filter(f, st)(frame)
+                o = fobj(frame, tab) if tab is not None else fobj(frame)
                 ids = [int(i) for i in o.index]
                 if len(o.columns) and len(o) and not o.equals(frame.loc[o.index]):
                     problems.append(f"{mode}: filter {f}: selected rows differ in content from the input rows")
@@ -254,6 +256,22 @@ def run_impl(case, d):
                         problems.append(f"{mode}: filter {f} on the frame with repeated labels: contents of the selected rows changed")
                 except Exception as e:
                     problems.append(f"{mode}: filter {f} raised {type(e).__name__}: {str(e)[:120]} on the frame with repeated labels")
+    # a frame whose name / cat columns hold the strings themselves: the same NameFilter objects, called once more without a table, must select
+    # the same rows as with the table (a filter that remembered the table of an earlier call would compare strings with ids)
+    if len(df):
+        dec3 = df.copy()
+        dec3["name"] = dec3["name"].apply(lambda i: sym[i])
+        dec3["cat"] = dec3["cat"].apply(lambda i: sym[i])
+        for f, fobj, want in zip(filters, objs, outs["encoded+table"]):
+            if f["k"] != "name" or isinstance(want, str):
+                continue
+            try:
+                got = [int(i) for i in fobj(dec3).index]
+                if got != want:
+                    problems.append(f"name filter {f} called again, without a table, on the frame whose name column holds strings selects {got[:12]}; "
+                                    f"with the table it selected {want[:12]}")
+            except Exception as e:
+                problems.append(f"name filter {f} called again without a table on the string-valued frame raised {type(e).__name__}: {str(e)[:120]}")
     return {"rows": rows, "ranks": rank_col, "filters": filters, "symtab": list(sym), "out": outs, "problems": problems}
 
 
